@@ -10,6 +10,7 @@ import (
 	"sync"
 	"time"
 
+	"github.com/nspcc-dev/neofs-node/internal/verifhook"
 	"github.com/nspcc-dev/neofs-node/pkg/local_object_storage/blobstor/common"
 	oid "github.com/nspcc-dev/neofs-sdk-go/object/id"
 	"go.uber.org/zap"
@@ -83,7 +84,12 @@ func (w *linuxWriter) newSyncBatch() (*syncBatch, error) {
 }
 
 func (w *linuxWriter) createBatch() (*syncBatch, error) {
+	verifhook.Point("fstree.linux.batch.open.before")
 	fd, err := unix.Open(w.root, w.bFlags, w.perm)
+	if e := verifhook.Fault("fstree.linux.batch.open"); e != nil && err == nil {
+		_ = unix.Close(fd) // injected failure: the call is reported as failed, its effect is undone
+		fd, err = -1, e
+	}
 	if err != nil {
 		return nil, err
 	}
@@ -111,13 +117,22 @@ func (b *syncBatch) intSync() {
 	var err error
 
 	if b.err == nil && !b.noSync {
+		verifhook.Point("fstree.linux.batch.fdatasync.before")
 		err = unix.Fdatasync(b.fd)
+		if e := verifhook.Fault("fstree.linux.batch.fdatasync"); e != nil && err == nil {
+			err = e
+		}
 		if err != nil {
 			b.err = err
 		}
 	}
 
+	verifhook.Point("fstree.linux.batch.close.before")
 	err = unix.Close(b.fd)
+	if e := verifhook.Fault("fstree.linux.batch.close"); e != nil && err == nil {
+		err = e
+	}
+	verifhook.Point("fstree.linux.batch.close.after")
 	if b.err == nil && err != nil {
 		b.err = err
 	}
@@ -143,7 +158,14 @@ func (b *syncBatch) write(id oid.ID, p string, data []byte) error {
 	copy(pref[combinedIDOff:], id[:])
 	binary.BigEndian.PutUint32(pref[combinedLengthOff:], uint32(len(data)))
 
+	verifhook.Point("fstree.linux.batch.writev.before")
 	n, err := unix.Writev(b.fd, [][]byte{pref[:], data})
+	if e := verifhook.Fault("fstree.linux.batch.writev"); e != nil && err == nil {
+		err = e // injected after the real call: the bytes are in the (still shared) temporary file
+	}
+	if verifhook.Fault("fstree.linux.batch.writev.short") != nil && err == nil {
+		n-- // injected short write
+	}
 	if err != nil {
 		b.err = err
 		b.intSync()
@@ -156,7 +178,13 @@ func (b *syncBatch) write(id oid.ID, p string, data []byte) error {
 	}
 	b.size += n
 	b.cnt++
+	verifhook.Point("fstree.linux.batch.linkat.before")
 	err = unix.Linkat(unix.AT_FDCWD, b.procname, unix.AT_FDCWD, p, unix.AT_SYMLINK_FOLLOW)
+	if e := verifhook.Fault("fstree.linux.batch.linkat"); e != nil && err == nil {
+		_ = unix.Unlink(p) // injected failure: undo the link just made, so the file system matches the reported result
+		err = e
+	}
+	verifhook.Point("fstree.linux.batch.linkat.after")
 	if err != nil {
 		if errors.Is(err, unix.EEXIST) {
 			// https://github.com/nspcc-dev/neofs-node/issues/2563
@@ -230,15 +258,32 @@ func (w *linuxWriter) writeCombinedFile(id oid.ID, p string, data []byte) error 
 }
 
 func (w *linuxWriter) writeFile(p string, data []byte) error {
+	verifhook.Point("fstree.linux.file.open.before")
 	fd, err := unix.Open(w.root, w.flags, w.perm)
+	if e := verifhook.Fault("fstree.linux.file.open"); e != nil && err == nil {
+		_ = unix.Close(fd)
+		fd, err = -1, e
+	}
 	if err != nil {
 		return fmt.Errorf("unix open: %w", err)
 	}
 	tmpPath := "/proc/self/fd/" + strconv.FormatUint(uint64(fd), 10)
+	verifhook.Point("fstree.linux.file.write.before")
 	n, err := unix.Write(fd, data)
+	if e := verifhook.Fault("fstree.linux.file.write"); e != nil && err == nil {
+		err = e // injected after the real call: the bytes are in the unlinked temporary file
+	}
+	if verifhook.Fault("fstree.linux.file.write.short") != nil && err == nil {
+		n-- // injected short write
+	}
 	if err == nil {
 		if n == len(data) {
+			verifhook.Point("fstree.linux.file.linkat.before")
 			err = unix.Linkat(unix.AT_FDCWD, tmpPath, unix.AT_FDCWD, p, unix.AT_SYMLINK_FOLLOW)
+			if e := verifhook.Fault("fstree.linux.file.linkat"); e != nil && err == nil {
+				_ = unix.Unlink(p) // injected failure: undo the link just made
+				err = e
+			}
 			if errors.Is(err, unix.EEXIST) {
 				// https://github.com/nspcc-dev/neofs-node/issues/2563
 				err = nil
@@ -247,7 +292,12 @@ func (w *linuxWriter) writeFile(p string, data []byte) error {
 			err = errors.New("incomplete unix write")
 		}
 	}
+	verifhook.Point("fstree.linux.file.close.before")
 	errClose := unix.Close(fd)
+	if e := verifhook.Fault("fstree.linux.file.close"); e != nil && errClose == nil {
+		errClose = e
+	}
+	verifhook.Point("fstree.linux.file.close.after")
 	if err != nil {
 		return fmt.Errorf("unix write: %w", err) // Close() error is ignored, we have a better one.
 	}
